@@ -154,7 +154,13 @@ func (c *Ctx) Finish(verifDir string, start time.Time, assumptions []string, exp
 		o := &c.Obs[i]
 		switch o.Verdict {
 		case "violated":
-			if k, ok := known[o.Key()]; ok {
+			// the same construct re-decided on another build configuration
+			// (rule suffixed "[tags=…]") is the same finding
+			rk := o.Rule
+			if i := strings.Index(rk, "[tags="); i >= 0 {
+				rk = rk[:i]
+			}
+			if k, ok := known[rk+" @ "+o.Construct]; ok {
 				o.Verdict = "known-finding"
 				nKnown++
 				fmt.Printf("KNOWN-FINDING: property=%s %s %s: %s\n", c.Prop, o.Rule, o.Construct, k.What)
